@@ -2,6 +2,7 @@ import KoordVerif.Model.C04
 import KoordVerif.Proofs.C04ExtConc
 import KoordVerif.Proofs.C04ExtWire
 import KoordVerif.Proofs.C04ExtCreate
+import KoordVerif.Proofs.C04ExtRsv
 import KoordVerif.Generated.C04
 /-
 Tie lemmas for C04: facts regenerated from /repo's current source on every run.  They pin
@@ -39,6 +40,12 @@ Tie lemmas for C04: facts regenerated from /repo's current source on every run. 
     compare with `== GangModeStrict`; the five string constants; v1 defaulting replaces only a nil DefaultMatchPolicy.
     (Statement-level ties: a rename of the local variables `matchPolicy` / `mode` / `policy` breaks them without
     breaking the property — reported as no-failing-input-found.)
+(11) reserve pods (model: `reservePodHasNode 0` — "already bound" = status.nodeName, never the requested node):
+    onPodAddInternal calls addBoundPod under exactly one test, `pod.Spec.NodeName != ""` (no fall-back to the
+    reservation-node annotation); reservationutil.NewReservePod clears the template's (requested) node name after copying
+    it to the annotation and then sets spec.nodeName from GetReservationNodeName(r) = r.Status.NodeName only; and the
+    Reservation informer gets the pod handler behind NewReservationToPodEventHandler (tie_handlers_registered_directly).
+    (Statement-level like (10); NewReservePod lives outside the plugin, in pkg/util/reservation.)
 -/
 namespace KoordVerif.C04
 open KoordVerif.Generated
@@ -192,5 +199,27 @@ theorem tie_default_match_policy_defaulting :
     C04.defaultMatchPolicyDefaulting =
       (["if obj.DefaultMatchPolicy==nil", "obj.DefaultMatchPolicy=defaultGangMatchPolicy"],
        "ptr.To[string](extension.GangMatchPolicyOnceSatisfied)") := by decide
+
+/-- "already bound" in onPodAddInternal is the reserve pod's spec.nodeName and nothing else -/
+theorem tie_pod_add_bound_test : C04.podAddBoundTest = ["pod.Spec.NodeName!=\"\""] := by decide
+
+/-- NewReservePod: the requested node goes to the annotation and is cleared; spec.nodeName = status.nodeName -/
+theorem tie_reserve_pod_node_name :
+    C04.reservePodNodeName =
+      (["if len(reservePod.Spec.NodeName)>0",
+        "reservePod.Annotations[AnnotationReservationNode]=reservePod.Spec.NodeName",
+        "reservePod.Spec.NodeName=\"\"", "reservePod.Spec.NodeName=nodeName"],
+       ["nodeName:=GetReservationNodeName(r)", "if len(nodeName)>0", "reservePod.Spec.NodeName=nodeName"]) ∧
+    C04.reservationNodeNameGetter = ["return r.Status.NodeName"] := by decide
+
+/-- the model's adapter at the rule the CURRENT source has (0 = spec.nodeName only; anything else = 1) -/
+def boundRuleOf (conds : List String) : Nat := if conds = ["pod.Spec.NodeName!=\"\""] then 0 else 1
+
+/-- ... under which an unscheduled Reservation, whatever node it requests, is not a binding event -/
+theorem tie_unscheduled_reservation_not_binding (upd : Bool) (r : Rsv) (hr : r.sched = false) (p : Pod) (g : GangId)
+    (anno : Option (Bool × Cfg)) : (deliverRsv (boundRuleOf C04.podAddBoundTest) upd r p g anno).binds? = none := by
+  have h : boundRuleOf C04.podAddBoundTest = 0 := by decide
+  rw [h]
+  exact deliverRsv_unscheduled_binds_none upd r hr p g anno
 
 end KoordVerif.C04
